@@ -273,9 +273,9 @@ func TestVF_C06_Cluster(t *testing.T) {
 			if p.NetDelayMs == 0 && vfhelp.Pick(t, "nd", 1) == 1 {
 				p.NetDelayMs = 1 + vfhelp.PickN(t, "netdelayms2", 5)
 			}
-			if p.WidenUs == 0 && vfhelp.Pick(t, "wd", 1) == 1 {
+			if p.WidenUs == 0 && vfhelp.Pick(t, "wd", 2) != 0 {
 				// slow Update calls: followers apply late, reads must wait for them
-				p.WidenUs = 200 + vfhelp.PickN(t, "widenus2", 800)
+				p.WidenUs = 200 + vfhelp.PickN(t, "widenus2", 1500)
 			}
 			p.Faults = append(p.Faults, Fault{Kind: FTransfer, A: vfhelp.Pick(t, "tr", 2), B: vfhelp.Pick(t, "trb", 2), AfterMs: 10 + vfhelp.PickN(t, "trafter", 40)})
 		},
@@ -287,6 +287,12 @@ func TestVF_C06_Cluster(t *testing.T) {
 
 func TestVF_C01_Cluster(t *testing.T) {
 	runE6(t, e6Profile{prop: "C01", family: famE6C01,
+		tune: func(t *rapid.T, p *Plan) {
+			if p.WidenUs == 0 && vfhelp.Pick(t, "wd", 1) == 1 {
+				// slow Update calls: a replica that applies late must not serve reads early
+				p.WidenUs = 200 + vfhelp.PickN(t, "widenus2", 1500)
+			}
+		},
 		rule: "non-trivial = >= 2 clients completed operations on one key, a read served by a non-leader host and >= 1 fault (partition/power cut/transfer) happened",
 		nontriv: func(res *Result) bool {
 			f := res.Flags
